@@ -33,6 +33,10 @@ ScopeNames == {"openid", "profile", "email", "offline_access"}
 
 IsConfidential(c) == Reg[c].auth # "none"
 
+\* Client clock skew in seconds (op.Client.ClockSkew): tokens for such a client are dated skew seconds back (iat, nbf, auth_time)
+\* and live skew seconds longer (exp of ID tokens, expires_in)
+Skew(c) == CASE c = "cx" -> 30 [] c = "cn" -> 7 [] OTHER -> 0
+
 \* Clients that opted into glob patterns (op.HasRedirectGlobs): cw registers one pattern for login redirects and a different one for
 \* post-logout redirects. "ucwG" names a URI matched by the login pattern only, "plcwG" one matched by the post-logout pattern only.
 LoginGlob(c) == IF c = "cw" THEN {"ucwG"} ELSE {}
@@ -67,7 +71,7 @@ Verifies(chall, verifier) ==      \* chall: "none" | "plain:v" | "s256:v" ; veri
 World == [clients |-> [c \in Clients |-> [auth |-> Reg[c].auth, app |-> Reg[c].app,
                                           grants |-> Reg[c].grants, rtypes |-> Reg[c].rtypes,
                                           uris |-> Reg[c].uris, postLogout |-> Reg[c].postLogout, at |-> Reg[c].at,
-                                          loginGlob |-> LoginGlob(c), plGlob |-> PLGlob(c),
+                                          loginGlob |-> LoginGlob(c), plGlob |-> PLGlob(c), skew |-> Skew(c),
                                           \* IDTokenUserinfoClaimsAssertion: the client wants the user claims in the ID token even when an access token is issued
                                           assert |-> c \in {"cx", "cn"}]],
           users |-> Users, uris |-> URIs]
